@@ -3,8 +3,23 @@
   `1 … 1 + (number of newlines in the source)`.
 -/
 import SeedProofs.Lemmas.Scan
+import SeedProofs.Lemmas.ParseTotal
 namespace Seed.C03
 open Seed
+
+-- audit: Seed.pmonoAll Seed.pbndAll Seed.ptotAll Seed.parseStmts_total Seed.parseExpr_total
+
+/-- the parser never runs out of the fuel the driver gives it: parsing terminates on every token list -/
+theorem parse_total (ts : List Span) :
+    parseStmts (parseFuel ts) false [] ts ≠ .timeout ∧ parseExpr (parseFuel ts) false ts ≠ .timeout :=
+  Seed.parse_total ts
+
+/-- the whole front end (lexer with its fuel, parser with its fuel) decides every source text: it accepts it or rejects
+    it with a diagnostic, it never "hangs" -/
+theorem front_end_total (src : List Char) : parseProg src ≠ .timeout := Seed.parseProg_ne_timeout src
+
+/-- so does the expression parser used for interpolation slots -/
+theorem slot_parser_total (src : List Char) : parseExprTop src ≠ .timeout := Seed.parseExprTop_ne_timeout src
 
 /-- every token consumes at least one character -/
 theorem nextToken_progress {s s' : Scanner} {sp : Span} (h : nextToken s = .tok sp s') :
